@@ -49,13 +49,14 @@ wp.set_module_options({"enable_backward": False})
 
 
 @wp.func
-def plane_convex(plane_normal: wp.vec3, plane_pos: wp.vec3, convex: Geom) -> Tuple[wp.vec4, mat43, wp.vec3]:
+def plane_convex(plane_normal: wp.vec3, plane_pos: wp.vec3, convex: Geom, margin: float = 0.0) -> Tuple[wp.vec4, mat43, wp.vec3]:
   """Core contact geometry calculation for plane-convex collision.
 
   Args:
     plane_normal: Normal vector of the plane.
     plane_pos: Position point on the plane.
     convex: Convex geometry object containing position, rotation, and mesh data.
+    margin: Vertices up to this distance above the plane are contact candidates.
 
   Returns:
     - Vector of contact distances (MJ_MAXVAL for unpopulated contacts).
@@ -88,7 +89,7 @@ def plane_convex(plane_normal: wp.vec3, plane_pos: wp.vec3, convex: Geom) -> Tup
         indices[0] = i
         a = vert
 
-    if max_support < 0:
+    if max_support < -margin:
       return contact_dist, contact_pos, plane_normal
 
     threshold = max_support - 1e-3
@@ -164,7 +165,7 @@ def plane_convex(plane_normal: wp.vec3, plane_pos: wp.vec3, convex: Geom) -> Tup
       if imax == prev:
         break
 
-    threshold = wp.max(0.0, max_support - 1e-3)
+    threshold = wp.max(-margin, max_support - 1e-3)
 
     a_dist = wp.float32(-_HUGE_VAL)
     while True:
@@ -871,7 +872,7 @@ def plane_convex_wrapper(
   nacon_out: wp.array[int],
 ):
   """Calculates contacts between a plane and a convex object."""
-  dist, pos, normal = plane_convex(plane.normal, plane.pos, convex)
+  dist, pos, normal = plane_convex(plane.normal, plane.pos, convex, margin)
 
   frame = make_frame(normal)
   for i in range(4):
